@@ -84,6 +84,9 @@ func (g *GenUnit) classTerm(fds []*Finding) (t *Term, err error) {
 	}()
 	e := g.E
 	env := &SpecEnv{e: e, fr: e.entryFrame, st: e.entry, bound: map[string]SV{}, cs: e.cs, pkg: e.pkg}
+	for k, v := range g.ClassBound {
+		env.bound[k] = v
+	}
 	var alts []*Term
 	for _, f := range fds {
 		src := f.Class
